@@ -393,3 +393,22 @@ PROPS["C10"] = {
         H("c10_crc24_split_2_1", "c10_armor", "quick", 600, "CRC over 2+1 chunking == reference", ["crc24::Crc24Hasher"], "L=3"),
     ],
 }
+
+# ------------------------------------------------------------------------------------------------
+PROPS["C19"] = {
+    "inject": [("src/lib.rs", "c19_s2k"), ("src/lib.rs", "c09_io")],
+    "mem_gb": 24,
+    "level_text": "Bounded model checking of the cost ceilings that are pure control flow: for every Argon2 (t, p, m) octet triple the KDF "
+                  "primitive is reached only within the documented ceiling; buffer-filling primitives take exactly the octets present.",
+    "level_note": "Argon2 replaced by a reach-recording stub, f32::log2 by an exact integer model. Allocation proportionality of the packet "
+                  "parsers, deeply repeated structures and streaming memory bounds need the message reader (BytesMut, whole-message parse), "
+                  "which Kani cannot decide here; they are outside.",
+    "bounds": "all 2^24 (t,p,m_enc) triples; password 2 octets; key size 16",
+    "outside": "allocation sizes of parsers (take_bytes cap, MPI cap, subpacket areas); 10^5-packet inputs; streaming buffers; iterated-S2K count (no ceiling in the code); wall clock / RSS",
+    "assumptions": [FMT_STUBS, "argon2::Argon2::hash_password_into stubbed (records that it was reached)", "f32::log2 stubbed by an exact model on 0..=255"],
+    "harnesses": [
+        H("c19_argon2_ceiling", "c19_s2k", "quick", 900, "StringToKey::derive_key, Argon2 arm: primitive reached only if t<=32, p<=32, m<=2^21 KiB", ["types::StringToKey::derive_key (Argon2 arm)"], "t,p,m_enc full octets"),
+        H("c09_take_bytes_3", "c09_io", "quick", 900, "take_bytes: all-or-error, consumes exactly the octets returned", IO_F, "<=4 bytes"),
+        H("c09_read_arr_4", "c09_io", "quick", 600, "read_arr: all-or-error", IO_F, "<=5 bytes"),
+    ],
+}
